@@ -55,7 +55,7 @@ def run(tier, seed, replay=None):
     if not rp or ("target" in rp["case"] and rp["case"]["target"] in recvlib.BY_NAME):
         if rp:
             c = rp["case"]
-            raw = [{k: c[k] for k in ("target", "src", "entry", "pairs", "injected") if k in c}]
+            raw = [{k: c[k] for k in ("target", "src", "entry", "pairs", "injected", "group_all") if k in c}]
         else:
             raw = c02.gen_cases(R.rng, "quick" if tier == "quick" else "thorough")
             if tier == "quick":
